@@ -68,6 +68,12 @@ def pool(thorough):
     # statements have been propagated (and may have made x or y basic in the tableau)
     S.append(("relation:>=", ("assert", rel(">=", sub(X, Y), n(4)))))
     S.append(("or-stmt:scaled", ("or", [[rel("<=", mul(n(2), X), add(mul(n(3), Y), n(2)))], [rel(">=", mul(n(2), Y), add(X, n(20)))]], None)))
+    # disjuncts that declare a local with the same name: each disjunct has its own scope (4th element = the text as
+    # written; the disjunct lists hold the meaning with the local replaced by its definition)
+    S.append(("or-stmt:locals", ("or", [[rel("<=", add(X, n(1)), n(5))], [rel(">=", sub(X, n(1)), n(5))]], None,
+                                 "{ real w = x + 1.0; w <= 5.0; } or { real w = x - 1.0; w >= 5.0; }")))
+    S.append(("or-stmt:locals-cost", ("or", [[rel(">=", Y, n(4)), rel("<=", add(Y, X), n(3))], [rel("<=", sub(Y, n(2)), n(0)), rel(">=", X, n(4))]], [n(1), n(2)],
+                                      "{ real w = y; w >= 4.0; w + x <= 3.0; } [1.0] or { real w = y - 2.0; w <= 0.0; x >= 4.0; } [2.0]")))
     if thorough:
         S.append(("or-stmt:3", ("or", [[rel("==", X, n(0))], [rel("==", X, n(1))], [rel("==", X, n(2))]], None)))
     return S
@@ -76,6 +82,8 @@ def pool(thorough):
 def render_stmt(st):
     if st[0] == "assert":
         return render(st[1]) + ";"
+    if len(st) > 3:
+        return st[3]
     parts = []
     for i, conj in enumerate(st[1]):
         s = "{ " + " ".join(render(c) + ";" for c in conj) + " }"
